@@ -6,6 +6,7 @@ import ParryModel.C08.LinkLemmas
 import ParryModel.C08.TermLemmas
 import ParryModel.C08.Theorems2
 import ParryModel.C08.Theorems3
+import ParryModel.C08.Theorems4
 /-!
 # C08 property theorems: the QBVH stays valid under any history
 
